@@ -13,6 +13,7 @@
   thr_clear_on_catch       exception_catch resets `active` when it hands the exception out (repair D3)
   thr_join_waits           Thread_Join calls pthread_join on the thread's handle
   thr_with_is_lock_unlock  Mutex's Start instance is (Mutex_Lock, Mutex_Unlock)
+  thr_mark_own_tls_only    Thread_Mark returns at once unless self is the current thread (repair 6bcc387)
 """
 import re
 
@@ -68,6 +69,14 @@ def generate(repo, emit, src, func_body):
         emit('thr_clear_on_catch', 'Definition thr_clear_on_catch : bool := %s.' % _b(clears))
     else:
         emit('thr_clear_on_catch', None)
+
+    # ---- Thread_Mark walks only the current thread's TLS table (repair of the C13 defect)
+    b = func_body(th, r'static\s+void\s+Thread_Mark\s*\([^{]*\{')
+    if b and re.search(r'mark\(\s*t->tls\s*,\s*gc\s*,\s*f\s*\)', b):
+        own = bool(re.search(r'if\s*\(\s*self\s+isnt\s+Thread_Current\(\)\s*\)\s*\{\s*return\s*;\s*\}[^}]*mark\(\s*t->tls', b, re.S))
+        emit('thr_mark_own_tls_only', 'Definition thr_mark_own_tls_only : bool := %s.' % _b(own))
+    else:
+        emit('thr_mark_own_tls_only', None)
 
     # ---- join / with
     b = func_body(th, r'static\s+void\s+Thread_Join\s*\(\s*var\s+self\s*\)\s*\{')
